@@ -5,7 +5,9 @@ What is decided here (DESIGN.md section 7, C08 "Tie"):
   * kernel-certified goals on a sample of the run's cases
       - Lchoose(n,k)          : Rabs (ln (IZR (binomZ n k)) - obs) <= 1e-10          [interval]
       - GammaInc/Comp(a,x)    : integer a, closed form of Proofs/GammaR.v              [interval]
-      - BetaInc(x,a,b)        : half-integer a,b >= 1, two integrals (Proofs/BetaR.v) [integral + interval]
+      - BetaInc(x,a,b)        : half-integer a,b >= 1, two integrals (Proofs/BetaR.v) [integral + interval];
+                                half-integer a,b with a = 1/2 or b = 1/2 (the shape TDist.CDF uses): RealSpec/BetaGen.v's
+                                Ibeta_gen through three proper integrals (Proofs/M2LemmasBeta.v)
   * every other transcendental value (non-integer parameters outside those windows) is
     compared with the UNCERTIFIED mpmath reference on a sample; reported separately.
 """
@@ -19,7 +21,7 @@ PID = "C08"
 TOL_VALUE = Fraction(1, 10 ** 9)      # BetaInc, GammaInc: "to within 1e-9"
 TOL_LCHOOSE = Fraction(1, 10 ** 10)   # Choose within 1e-10 relative  =>  its logarithm within 1e-10 absolute
 TOL_BETA_REL = Fraction(1, 10 ** 9)
-REQ = "From MM Require Import RealSpec.Beta RealSpec.Gamma Proofs.BetaR Proofs.GammaR Proofs.M2Lemmas Model.Mathx."
+REQ = "From MM Require Import RealSpec.Beta RealSpec.Gamma RealSpec.BetaGen Proofs.BetaR Proofs.GammaR Proofs.M2Lemmas Proofs.M2LemmasBeta Model.Mathx."
 
 
 # ------------------------------------------------------------------ line decoding
@@ -55,6 +57,9 @@ def parse(ints):
         cnt = ints[9]
         return dict(op=6, fn=ints[2], a=X(ints[3]), b=X(ints[4]), lo=X(ints[5]), hi=X(ints[6]), n=ints[7], status=ints[8],
                     pts=[dict(xlo=X(ints[10 + 4 * i]), xhi=X(ints[11 + 4 * i]), f_lo=X(ints[12 + 4 * i]), f_hi=X(ints[13 + 4 * i])) for i in range(cnt)])
+    if op == 7:
+        cnt = ints[2]
+        return dict(op=7, entries=[tuple(X(ints[3 + 6 * i + j]) for j in range(6)) for i in range(cnt)])
     return dict(op=op)
 
 
@@ -85,6 +90,10 @@ def describe(ints, verdict, case_json):
         elif d["op"] == 4 and 0 <= pos < len(d["pts"]):
             p = d["pts"][pos]
             out.update(a=m2.fstr(d["a"]), x=m2.fstr(p["x"]), GammaInc=m2.fstr(p["p"]), GammaIncComp=m2.fstr(p["q"]), failed=CODES4.get(verdict[3], verdict[3]))
+        elif d["op"] == 7 and 0 <= pos < len(d["entries"]):
+            a, b, a1, b0, b1, bs = d["entries"][pos]
+            out.update(op="Beta laws", a=m2.fstr(a), b=m2.fstr(b), Beta_a_b=m2.fstr(b0), Beta_a1_b=m2.fstr(b1), Beta_b_a=m2.fstr(bs),
+                       failed={1: "not finite / not positive", 2: "Beta(a,b) != Beta(b,a)", 3: "(a+b) Beta(a+1,b) != a Beta(a,b) to 1e-9 relative"}.get(verdict[3] if len(verdict) > 3 else None))
         elif d["op"] == 6:
             out.update(op="monotonicity scan in x", function={1: "BetaInc(x,a,b)", 2: "GammaInc(a,x)", 3: "GammaIncComp(a,x)"}.get(d["fn"], d["fn"]),
                        a=m2.fstr(d["a"]), b=m2.fstr(d["b"]),
@@ -113,6 +122,41 @@ def half_int(v):
     if p.denominator == 1 and 0 <= p <= 78:
         return int(p)
     return None
+
+
+def half2(v):
+    """v = m/2 with m a natural number in 1..80 -> m, else None"""
+    if not m2.is_num(v):
+        return None
+    m = v * 2
+    if m.denominator == 1 and 1 <= m <= 80:
+        return int(m)
+    return None
+
+
+def goal_beta_gen(gid, x, a, b, obs, info):
+    """half-integer a, b >= 1/2 (in particular a = 1/2 or b = 1/2, the shape TDist.CDF uses): RealSpec/BetaGen.v's
+    Ibeta_gen through three proper integrals (Proofs/M2LemmasBeta.v)"""
+    p, q = half2(a), half2(b)
+    xs, as_, bs = m2.rlit(x), m2.rlit(a), m2.rlit(b)
+    expr = "Ibeta_gen %s %s %s" % (xs, as_, bs)
+    side = "rewrite ?INR_lit; simpl; lra"
+    prelude = ("rewrite (Ibeta_gen_half_form %d %d %s %s %s); [ | %s | %s | repeat constructor | repeat constructor | lra ]."
+               % (p, q, as_, bs, xs, side, side))
+    kpq = "(fun t => sqrt t ^ %d * sqrt (1 - t) ^ %d / (1 - t))" % (p, q)
+    kqp = "(fun t => sqrt t ^ %d * sqrt (1 - t) ^ %d / (1 - t))" % (q, p)
+    rel = Fraction(1, 10 ** 10)
+
+    def href(pp, qq, up):
+        # int_0^up t^(pp/2) (1-t)^(qq/2-1) dt = B_up(pp/2+1, qq/2)
+        return "bint(%s,%s,%s)" % (m2.pylit(Fraction(pp, 2) + 1), m2.pylit(Fraction(qq, 2)), up)
+    integrals = [dict(term="RInt %s 0 %s" % (kpq, xs), pat="RInt _ 0 %s" % xs, ref=href(p, q, m2.pylit(x)), rel=rel),
+                 dict(term="RInt %s 0 (1 / 2)" % kpq, pat="RInt _ 0 (1 / 2)", ref=href(p, q, "F('1/2')"), rel=rel),
+                 dict(term="RInt %s 0 (1 / 2)" % kqp, pat="RInt _ 0 (1 / 2)", ref=href(q, p, "F('1/2')"), rel=rel)]
+    if x == Fraction(1, 2):
+        integrals = integrals[1:]
+    return m2.Goal(gid, expr, obs, TOL_VALUE, requires=REQ, prelude=prelude, integrals=integrals,
+                   ref="ibeta(%s,%s,%s)" % (m2.pylit(x), m2.pylit(a), m2.pylit(b)), info=info)
 
 
 def goal_lchoose(gid, n, k, obs, info):
@@ -175,6 +219,9 @@ def collect(lines, rnd, tier):
                 small_x = x.denominator <= (1 << 30) and x >= Fraction(1, 1 << 20) and 1 - x >= Fraction(1, 1 << 20)
                 if pa is not None and pb is not None and small_x:
                     cert.append(("beta", ci, info, p["v"]))
+                elif (half2(a) is not None and half2(b) is not None and (half2(a) == 1 or half2(b) == 1)
+                      and x.denominator <= (1 << 30) and Fraction(1, 64) <= x <= 1 - Fraction(1, 64)):
+                    cert.append(("betag", ci, info, p["v"]))
                 elif not (a.denominator == 1 and b.denominator == 1 and x.denominator <= 1024):
                     refonly.append(("beta", ci, info, p["v"]))
         elif d["op"] == 4:
@@ -203,7 +250,7 @@ def ref_expr(kind, info):
     L = m2.pylit
     if kind == "lchoose":
         return "lbinom(%d,%d)" % (info["n"], info["k"])
-    if kind == "beta":
+    if kind in ("beta", "betag"):
         return "ibeta(%s,%s,%s)" % (L(info["x"]), L(info["a"]), L(info["b"]))
     if kind == "gammaP":
         return "pgamma(%s,%s)" % (L(info["a"]), L(info["x"]))
@@ -229,6 +276,8 @@ def make_goal(gid, item):
         return goal_lchoose(gid, info["n"], info["k"], obs, ginfo)
     if kind == "beta":
         return goal_beta(gid, info["x"], info["a"], info["b"], obs, ginfo)
+    if kind == "betag":
+        return goal_beta_gen(gid, info["x"], info["a"], info["b"], obs, ginfo)
     if kind == "gammaP":
         return goal_gamma(gid, info["a"], info["x"], obs, False, ginfo)
     if kind == "gammaQ":
@@ -243,7 +292,7 @@ def point_case(lines, item):
     try:
         if kind == "lchoose":
             case["ks"] = [info["k"]]
-        elif kind in ("beta", "gammaP", "gammaQ"):
+        elif kind in ("beta", "betag", "gammaP", "gammaQ"):
             case["xs"] = [case["xs"][info["point"]]]
         elif kind == "betafn":
             case["xs"] = case["xs"][2 * info["point"]: 2 * info["point"] + 2]
@@ -256,7 +305,7 @@ def extra(ctx):
     tier, seed, lines = ctx["tier"], ctx["seed"], ctx["lines"]
     rnd = random.Random(seed * 1009 + 8)
     cert, refonly = collect(lines, rnd, tier)
-    quota = dict(lchoose=10, beta=12, gammaP=12, gammaQ=6) if tier == "quick" else dict(lchoose=150, beta=400, gammaP=300, gammaQ=150)
+    quota = dict(lchoose=10, beta=12, betag=6, gammaP=12, gammaQ=6) if tier == "quick" else dict(lchoose=150, beta=400, betag=100, gammaP=300, gammaQ=150)
     nref = 1200 if tier == "quick" else 20000
     # --- reference on a sample of everything transcendental (uncertified)
     ref_items = list(refonly) + [it for it in cert if it[0] != "lchoose"]
@@ -283,7 +332,7 @@ def extra(ctx):
             bad_ref.append((it, v))
     # --- certificate goals: every reference mismatch inside the certifiable window + a stratified sample
     certset = {id(it) for it in cert}
-    chosen = [it for it, _ in bad_ref if id(it) in certset][:30]
+    chosen = [it for it, _ in bad_ref if id(it) in certset][:6 if tier == "quick" else 30]
     by_kind = {}
     for it in cert:
         by_kind.setdefault(it[0], []).append(it)
